@@ -43,6 +43,7 @@ GEN_SOURCES = {
     "Consts.lean": ["src/spake2/spake2.py", "src/spake2/params.py", "src/spake2/ed25519_group.py", "src/spake2/parameters/ed25519.py",
                     "src/spake2/parameters/i1024.py", "src/spake2/parameters/i2048.py", "src/spake2/parameters/i3072.py", "src/spake2/parameters/all.py"],
     "ProtoShape.lean": ["src/spake2/spake2.py"],
+    "EdShape.lean": ["src/spake2/ed25519_basic.py"],
 }
 GEN_DIR = os.path.join(LEAN, "Spake2Model", "Gen")
 PIN_DIR = os.path.join(LEAN, "GenPinned")
